@@ -9,6 +9,8 @@ import (
 	"errors"
 	"fmt"
 	"net"
+	"strconv"
+	"strings"
 
 	_ "github.com/mattn/go-sqlite3"
 )
@@ -42,7 +44,7 @@ func loadRecords(db *sql.DB) (map[string]*Record, error) {
 		if err := rows.Scan(&mac, &ip, &expiry, &hostname); err != nil {
 			return nil, fmt.Errorf("failed to scan row: %w", err)
 		}
-		hwaddr, err := net.ParseMAC(mac)
+		hwaddr, err := parseHWAddr(mac)
 		if err != nil {
 			return nil, fmt.Errorf("malformed hardware address: %s", mac)
 		}
@@ -56,6 +58,31 @@ func loadRecords(db *sql.DB) (map[string]*Record, error) {
 		return nil, fmt.Errorf("failed lease database row scanning: %w", err)
 	}
 	return records, nil
+}
+
+// parseHWAddr is the inverse of net.HardwareAddr.String() for hardware
+// addresses of any length. net.ParseMAC only accepts 6, 8 and 20 bytes, but
+// leases are saved for whatever chaddr length (0 to 16 bytes) the client used,
+// and the lease table could not be loaded again once it held such a lease.
+// A byte may come back without its leading zero: the column's numeric affinity
+// makes sqlite store a lone "07" as the integer 7.
+func parseHWAddr(s string) (net.HardwareAddr, error) {
+	if s == "" {
+		return net.HardwareAddr{}, nil
+	}
+	parts := strings.Split(s, ":")
+	hwaddr := make(net.HardwareAddr, len(parts))
+	for i, part := range parts {
+		if len(part) > 2 {
+			return nil, fmt.Errorf("invalid hardware address byte %q", part)
+		}
+		b, err := strconv.ParseUint(part, 16, 8)
+		if err != nil {
+			return nil, err
+		}
+		hwaddr[i] = byte(b)
+	}
+	return hwaddr, nil
 }
 
 // saveIPAddress writes out a lease to storage
